@@ -224,15 +224,33 @@ def run(ctx: Context) -> None:
         sets = [n for n in ast.walk(dd.node) if isinstance(n, ast.Assign) and isinstance(n.targets[0], ast.Subscript)
                 and const_value(n.targets[0].slice, None) == '_FillValue']
         ok_dd = False
+        ddflow = ctx.flow(dd)
+        from .common import positive_conditions
         for n in sets:
-            g = [norm_text(st.test) for st, inb in enclosing_ifs(dd, n) if inb]
-            txt = ' '.join(g)
-            ok_dd = (is_none(n.value) and norm_text(n.targets[0].value).endswith('.encoding')
-                     and "'_FillValue' not in variable.encoding" in txt and "'_FillValue' not in variable.attrs" in txt
-                     and 'current_dtype == promoted_dtype' in txt)
-        prom = [n for n in ast.walk(dd.node) if isinstance(n, ast.Assign) and norm_text(n.targets[0]) == '(promoted_dtype, fill_value)']
-        cur = [n for n in ast.walk(dd.node) if isinstance(n, ast.Assign) and norm_text(n.targets[0]) == 'current_dtype']
-        ok_dd = ok_dd and len(prom) == 1 and norm_text(prom[0].value) == 'maybe_promote(current_dtype)' and len(cur) == 1 and norm_text(cur[0].value) == 'variable.dtype'
+            conds = positive_conditions(dd, n)
+            holder = n.targets[0].value          # <variable>.encoding
+            var_txt = norm_text(holder.value) if isinstance(holder, ast.Attribute) and holder.attr == 'encoding' else None
+            has = {(norm_text(t), pol) for t, pol in conds}
+            same_dtype = False
+            for t, pol in conds:
+                if isinstance(t, ast.Compare) and len(t.ops) == 1 and isinstance(t.ops[0], ast.Eq) and pol:
+                    sides = [t.left, t.comparators[0]]
+                    res = [ddflow.resolve(x) for x in sides]
+                    for cur_i, pro_i in ((0, 1), (1, 0)):
+                        cur_ok = var_txt is not None and norm_text(res[cur_i]) == f"{var_txt}.dtype"
+                        pro_ok = False
+                        if isinstance(sides[pro_i], ast.Name):
+                            d = ddflow.single_def(sides[pro_i])
+                            if d is not None and d.kind == 'unpack' and isinstance(d.value, ast.Call) and callee(ctx, dd, d.value) == 'xarray.core.dtypes.maybe_promote' \
+                                    and len(d.value.args) == 1 and norm_text(ddflow.resolve(d.value.args[0])) == f"{var_txt}.dtype" and getattr(d, 'index', (0,)) in ((0,), 0, None):
+                                pro_ok = True
+                        elif isinstance(res[pro_i], ast.Subscript) and const_value(res[pro_i].slice, None) == 0 and isinstance(ddflow.resolve(res[pro_i].value), ast.Call) \
+                                and callee(ctx, dd, ddflow.resolve(res[pro_i].value)) == 'xarray.core.dtypes.maybe_promote':
+                            pro_ok = True
+                        if cur_ok and pro_ok:
+                            same_dtype = True
+            ok_dd = (is_none(n.value) and var_txt is not None and (f"'_FillValue' in {var_txt}.encoding", False) in has
+                     and (f"'_FillValue' in {var_txt}.attrs", False) in has and same_dtype)
         ctx.check('R17.4', ok_dd and len(sets) == 1, "_FillValue=None is set in the encoding exactly for variables whose dtype can hold its own missing value (maybe_promote leaves it unchanged: floats, datetimes, timedeltas - the ones xarray would give a default fill) and only when neither encoding nor attrs define one", dd,
                   sets[0] if sets else dd.node)
         fu = ctx.func(f"{UTILS}.fix_time_units_for_ems")
